@@ -4,8 +4,9 @@ use crate::{
 };
 use aiken_lang::{
     ast::{DecoratorKind, Definition, TypedDataType, TypedDefinition},
-    tipo::{Type, TypeVar, pretty},
+    tipo::{Type, TypeVar, find_and_replace_generics, pretty},
 };
+use indexmap::IndexMap;
 use owo_colors::{OwoColorize, Stream::Stdout};
 use serde::{
     self,
@@ -581,17 +582,25 @@ fn collect_type_parameters<'a>(
     generics: &'a [Rc<Type>],
     applications: &'a [Rc<Type>],
 ) {
+    // NOTE: Applied types are written in terms of the type parameters that are in scope where the
+    // application occurs (e.g. the `a` of `LinkedList<a>` in a recursive field). Hence, they must
+    // be resolved against those, and all at once, BEFORE any parameter is bound again. Otherwise, a
+    // parameter ends up bound to itself (or to another parameter that is being re-bound), and
+    // resolving it never terminates.
+    let in_scope: IndexMap<u64, Rc<Type>> = type_parameters
+        .iter()
+        .map(|(id, tipo)| (*id, tipo.clone()))
+        .collect();
+
     for (index, generic) in generics.iter().enumerate() {
         match &**generic {
             Type::Var { tipo, .. } => match *tipo.borrow() {
                 TypeVar::Generic { id } => {
-                    type_parameters.insert(
-                        id,
-                        applications
-                            .get(index)
-                            .unwrap_or_else(|| panic!("Couldn't find generic identifier ({id}) in applied types: {applications:?}"))
-                            .to_owned()
-                    );
+                    let application = applications
+                        .get(index)
+                        .unwrap_or_else(|| panic!("Couldn't find generic identifier ({id}) in applied types: {applications:?}"));
+
+                    type_parameters.insert(id, find_and_replace_generics(application, &in_scope));
                 }
                 _ => unreachable!(),
             },
